@@ -7,6 +7,14 @@
 #include "common/alph.hpp"
 #include "specmodel/specmodel.hpp"
 #include <thread>
+#ifdef RX_LARGEPAGES
+// LARGE_PAGES variants of every cache / dataset / VM class: the sandbox has no huge pages, so the harness owns mmap and
+// answers MAP_HUGETLB requests positively (the flag is stripped); everything else is the library's own large-page code path
+#include "common/envalloc.hpp"
+static const int LP = RANDOMX_FLAG_LARGE_PAGES;
+#else
+static const int LP = 0;
+#endif
 
 using namespace rxh;
 #ifndef RX_PROFILE
@@ -28,12 +36,12 @@ struct World {   // everything that depends on the key
 	spec::Cache sc;
 	std::string build(const std::vector<int>& cache_ids, const std::vector<int>& ds_ids, int threads) {
 		for (int c : cache_ids) {
-			cache[c] = randomx_alloc_cache((randomx_flags)CC[c].flags);
+			cache[c] = randomx_alloc_cache((randomx_flags)(CC[c].flags | LP));
 			if (!cache[c]) return std::string("randomx_alloc_cache failed for ") + CC[c].name;
 			randomx_init_cache(cache[c], key.data(), key.size());
 		}
 		for (int c : ds_ids) {
-			ds[c] = randomx_alloc_dataset(RANDOMX_FLAG_DEFAULT);
+			ds[c] = randomx_alloc_dataset((randomx_flags)LP);
 			if (!ds[c]) return "randomx_alloc_dataset failed";
 			unsigned long n = randomx_dataset_item_count();
 			if (threads <= 1) randomx_init_dataset(ds[c], cache[c], 0, n);
@@ -49,7 +57,7 @@ struct World {   // everything that depends on the key
 		for (auto& fs : vm_flagsets()) {
 			bool full = fs.flags & RANDOMX_FLAG_FULL_MEM;
 			for (int c : (full ? ds_ids : cache_ids)) {
-				randomx_vm* vm = randomx_create_vm((randomx_flags)fs.flags, full ? nullptr : cache[c], full ? ds[c] : nullptr);
+				randomx_vm* vm = randomx_create_vm((randomx_flags)(fs.flags | LP), full ? nullptr : cache[c], full ? ds[c] : nullptr);
 				if (!vm) return std::string("randomx_create_vm failed for ") + fs.name;
 				vms.push_back({ vm, std::string(fs.name) + "@" + CC[c].name });
 			}
@@ -82,6 +90,9 @@ static std::string check_case(World& w, const std::string& in, bool v2, vf::Resu
 
 int main(int argc, char** argv) {
 	vf::Args args = vf::parse_args(argc, argv, "C01");
+#ifdef RX_LARGEPAGES
+	env::init(); env::S().hugepages = true; env::S().tracking = true; env::S().fill = 0xA5;
+#endif
 	const bool th = args.thorough();
 	std::vector<std::string> keys = alph::key_shapes(th);
 	std::vector<size_t> lens = alph::input_lengths(th, false);
